@@ -161,6 +161,9 @@ def oracle(case, impl, model):
     return (True, "")
 
 
+fix_candidate = fix_eval_candidate
+
+
 def nontrivial(case, impl):
     return bool(case.get("_nt"))
 
